@@ -26,9 +26,11 @@ package main
 // or after is recorded as observed and the model/oracle accept what is consistent with it.
 //
 // The harness never hangs: every liveness wait has its own deadline, every pool call runs under
-// one. The first 3 cases of a run that fail a liveness wait are recorded with what was seen (the
-// oracle fails on them: a concrete replay); from then on the waits are short and a case that
-// fails one is dropped (counted, not recorded - it was not given the full deadline).
+// one. A script / nested case that fails a liveness wait is run a second time at once and stands
+// only if it fails one again (a stalled machine is not a hung pool). The first 3 cases of a run
+// that fail are recorded with what was seen (the oracle fails on them: a concrete replay); from
+// then on the waits are short and a case that fails one is dropped (counted, not recorded - it
+// was not given the full deadline).
 
 import (
 	"context"
@@ -48,7 +50,7 @@ import (
 )
 
 const (
-	liveDeadline   = 8 * time.Second       // the one real-time judgement: "must happen" did not
+	liveDeadline   = 6 * time.Second       // the one real-time judgement: "must happen" did not
 	shortDeadline  = 10 * time.Millisecond // after fullFailures failed cases (cases then dropped)
 	failedCaseWait = 2 * time.Millisecond  // further waits of a case that has already failed one
 	fullFailures   = 3
@@ -90,16 +92,61 @@ func (pt *patienceT) callDeadline() (time.Duration, bool) {
 	}
 }
 
-// failed notes a liveness failure; it reports whether the case is still to be recorded.
+// failed notes a liveness failure; it reports whether the case is still to be recorded. Whoever
+// runs the case counts it (confirm) once the failure stands.
 func (pt *patienceT) failed(recorded bool) bool {
 	if !recorded {
 		return false
 	}
-	if !pt.caseFailed {
-		pt.caseFailed = true
-		pt.failedCases++
-	}
+	pt.caseFailed = true
 	return true
+}
+
+func (pt *patienceT) confirm() { pt.failedCases++ }
+
+// tally buffers what one attempt at a case wants to add to the sink, so that an attempt can be
+// discarded.
+type tally struct {
+	counts []string
+	cases  []hx.Case
+}
+
+func (t *tally) Count(key string) { t.counts = append(t.counts, key) }
+func (t *tally) Add(c hx.Case)    { t.cases = append(t.cases, c) }
+
+func (t *tally) commit(ctx *core.Ctx) {
+	for _, k := range t.counts {
+		ctx.Sink.Count(k)
+	}
+	for _, c := range t.cases {
+		ctx.Sink.Add(c)
+	}
+}
+
+// runConfirmed runs a script / nested input. A liveness failure under the full deadline is a
+// real-time judgement, and the machine may simply have stalled (memory pressure, a paused VM):
+// it stands only if an immediate second run of the same input fails a liveness wait as well;
+// otherwise the first run is discarded (counted) and the second one is the case.
+func runConfirmed(ctx *core.Ctx, in c20Input, run func(*tally, c20Input)) {
+	t := &tally{}
+	run(t, in)
+	if patience.caseFailed {
+		t2 := &tally{}
+		run(t2, in)
+		if patience.caseFailed {
+			patience.confirm()
+			for i := range t2.cases {
+				if t2.cases[i].Note != "" {
+					t2.cases[i].Note += "; "
+				}
+				t2.cases[i].Note += "liveness failure seen in two consecutive runs of this input"
+			}
+		} else {
+			ctx.Sink.Count(in.Kind + "/liveness_failure_not_reproduced_by_an_immediate_second_run(first_run_discarded)")
+		}
+		t = t2
+	}
+	t.commit(ctx)
 }
 
 type c20Op struct {
@@ -186,7 +233,7 @@ func waitDone(p *kitctx.Pool, d time.Duration) bool {
 	case <-p.Done():
 		return true
 	case <-t.C:
-		return false
+		return isDone(p)
 	}
 }
 
@@ -235,6 +282,11 @@ func returns(f func(), d time.Duration) (returned bool, panicked any) {
 	case <-ch:
 		return true, panicked
 	case <-t.C:
+	}
+	select { // both may be ready after a stall of this process: the call did return
+	case <-ch:
+		return true, panicked
+	default:
 		return false, nil
 	}
 }
@@ -571,28 +623,28 @@ func deadFirst(in c20Input) bool {
 	return false
 }
 
-func (r *runner) decorate(ctx *core.Ctx, c *hx.Case, kind string) bool {
+func (r *runner) decorate(t *tally, c *hx.Case, kind string) bool {
 	if r.dropped {
-		ctx.Sink.Count(kind + "/dropped(liveness_wait_failed_under_short_deadline_after_3_recorded_failures)")
+		t.Count(kind + "/dropped(liveness_wait_failed_under_short_deadline_after_3_recorded_failures)")
 		return false
 	}
 	if r.wedged != "" {
 		c.Direct = 2
 		if r.panicked {
 			c.Note = fmt.Sprintf("%s panicked; the script is recorded up to that call", r.wedged)
-			ctx.Sink.Count(kind + "/call_panicked")
+			t.Count(kind + "/call_panicked")
 		} else {
 			c.Note = fmt.Sprintf("%s did not return within its deadline (%v, 1 s once the case has failed another wait); the script is recorded up to that call", r.wedged, liveDeadline)
-			ctx.Sink.Count(kind + "/call_did_not_return")
+			t.Count(kind + "/call_did_not_return")
 		}
 	}
 	if patience.caseFailed {
-		ctx.Sink.Count(kind + "/liveness_failure_recorded")
+		t.Count(kind + "/liveness_failure_recorded")
 	}
 	return true
 }
 
-func runScript(ctx *core.Ctx, in c20Input) {
+func runScript(t *tally, in c20Input) {
 	r, obs0 := newRunner(in)
 	obs := r.steps(in.Ops, true)
 	final, leak := r.finish()
@@ -604,11 +656,11 @@ func runScript(ctx *core.Ctx, in c20Input) {
 		}
 	}
 	c := hx.Case{Kind: "script", Input: hx.MustJSON(in), Facts: map[string]any{}}
-	if !r.decorate(ctx, &c, "script") {
+	if !r.decorate(t, &c, "script") {
 		return
 	}
 	for _, op := range ops {
-		ctx.Sink.Count("script/op=" + op.Op)
+		t.Count("script/op=" + op.Op)
 	}
 	nLiveInit := liveInit(in)
 	c.Class = fmt.Sprintf("script/pre%v/init%v/%s", in.Pre, in.Init, opsShape(in.Ops))
@@ -617,20 +669,20 @@ func runScript(ctx *core.Ctx, in c20Input) {
 	if anyFast(ops) {
 		c.Coq = fmt.Sprintf("CPScript %s %s %s %s %s %s %s", hx.CoqInts(in.Pre), hx.CoqInts(in.Init),
 			opsCoq(ops), obs0.coq(), pobsCoq(obs), hx.CoqBool(final), hx.CoqBool(leak))
-		ctx.Sink.Count("script/with_back_to_back_operations")
+		t.Count("script/with_back_to_back_operations")
 	} else {
 		c.Coq = fmt.Sprintf("CScript %s %s %s %s %s %s %s", hx.CoqInts(in.Pre), hx.CoqInts(in.Init),
 			opsCoq(ops), obs0.coq(), obsCoq(obs), hx.CoqBool(final), hx.CoqBool(leak))
 	}
-	ctx.Sink.Count("kind=script")
-	ctx.Sink.Count(fmt.Sprintf("script/initial=%d", len(in.Init)))
-	ctx.Sink.Count(fmt.Sprintf("script/initial_live=%d", nLiveInit))
+	t.Count("kind=script")
+	t.Count(fmt.Sprintf("script/initial=%d", len(in.Init)))
+	t.Count(fmt.Sprintf("script/initial_live=%d", nLiveInit))
 	if deadFirst(in) {
-		ctx.Sink.Count("script/ended_initial_context_before_a_live_one")
+		t.Count("script/ended_initial_context_before_a_live_one")
 	}
-	ctx.Sink.Count(fmt.Sprintf("script/adds=%d", nAdd))
-	ctx.Sink.Count("script/pool_ended_by=" + r.doneBy)
-	ctx.Sink.Add(c)
+	t.Count(fmt.Sprintf("script/adds=%d", nAdd))
+	t.Count("script/pool_ended_by=" + r.doneBy)
+	t.Add(c)
 }
 
 // ---------------------------------------------------------------------------------------
@@ -666,7 +718,7 @@ func nestedOps(in c20Input) []c20Op {
 	panic("c20: bad nested operation " + in.Nested)
 }
 
-func runNested(ctx *core.Ctx, in c20Input) {
+func runNested(t *tally, in c20Input) {
 	nops := nestedOps(in)
 	if len(nops) == 0 {
 		panic("c20: nested end without ids")
@@ -712,15 +764,15 @@ func runNested(ctx *core.Ctx, in c20Input) {
 		h := &hookCtx{Context: r.cs.get(in.M)}
 		h.hook = func() {
 			called = true
-			t := time.NewTimer(wait)
-			defer t.Stop()
+			tm := time.NewTimer(wait)
+			defer tm.Stop()
 			defer func() { ndone = isDone(p) }()
 			if in.Nested == "end" {
 				endMembers()
 				select {
 				case <-p.Done():
 					inside = true
-				case <-t.C:
+				case <-tm.C:
 				}
 				return
 			}
@@ -728,7 +780,7 @@ func runNested(ctx *core.Ctx, in c20Input) {
 			select {
 			case <-completed:
 				inside = true
-			case <-t.C:
+			case <-tm.C:
 			}
 		}
 		if r.call("Add", func() { p.Add(h) }) {
@@ -741,16 +793,20 @@ func runNested(ctx *core.Ctx, in c20Input) {
 			}
 			if in.Nested != "end" {
 				d, rec := patience.callDeadline()
-				t := time.NewTimer(d)
+				tm := time.NewTimer(d)
 				select {
 				case <-completed:
-				case <-t.C:
-					nret = false
-					if !patience.failed(rec) {
-						r.dropped = true
+				case <-tm.C:
+					select {
+					case <-completed:
+					default:
+						nret = false
+						if !patience.failed(rec) {
+							r.dropped = true
+						}
 					}
 				}
-				t.Stop()
+				tm.Stop()
 				if nret && npanic {
 					nret = false
 					r.panicked = true
@@ -778,20 +834,20 @@ func runNested(ctx *core.Ctx, in c20Input) {
 	final, leak := r.finish()
 
 	c := hx.Case{Kind: "nested", Input: hx.MustJSON(in), Facts: map[string]any{}}
-	if !r.decorate(ctx, &c, "nested") {
+	if !r.decorate(t, &c, "nested") {
 		return
 	}
 	nLiveInit := liveInit(in)
 	c.Trivial = nLiveInit == 0
 	c.Class = fmt.Sprintf("nested/pre%v/init%v/%s/add%d/%s%v/%s", in.Pre, in.Init, opsShape(in.Ops), in.M,
 		in.Nested, in.NEnd, opsShape(in.Ops2))
-	ctx.Sink.Count("kind=nested")
+	t.Count("kind=nested")
 	if !prefixDone || (r.wedged != "" && nret) {
 		// a call of the plain script part wedged: recorded as the script up to that call
 		c.Observed = map[string]any{"obs0": obs0, "obs": obs1, "final_done": final, "goroutine_left": leak}
 		c.Coq = fmt.Sprintf("CScript %s %s %s %s %s %s %s", hx.CoqInts(in.Pre), hx.CoqInts(in.Init),
 			opsCoq(in.Ops[:len(obs1)]), obs0.coq(), obsCoq(obs1), hx.CoqBool(final), hx.CoqBool(leak))
-		ctx.Sink.Add(c)
+		t.Add(c)
 		return
 	}
 	ops2 := in.Ops2[:len(obs2)]
@@ -801,17 +857,17 @@ func runNested(ctx *core.Ctx, in c20Input) {
 		opsCoq(in.Ops), obs0.coq(), obsCoq(obs1), hx.CoqZ(int64(in.M)), opsCoq(nops),
 		hx.CoqBool(called), hx.CoqBool(inside), hx.CoqBool(ndone), hx.CoqBool(nret), hx.CoqOptZ(nres),
 		obsA.coq(), opsCoq(ops2), obsCoq(obs2), hx.CoqBool(final), hx.CoqBool(leak))
-	ctx.Sink.Count("nested/op=" + in.Nested)
-	ctx.Sink.Count(fmt.Sprintf("nested/live_members_at_add=%d", liveAt(in)))
+	t.Count("nested/op=" + in.Nested)
+	t.Count(fmt.Sprintf("nested/live_members_at_add=%d", liveAt(in)))
 	switch {
 	case !called:
-		ctx.Sink.Count("nested/order=Done_not_called(operation_after_Add)")
+		t.Count("nested/order=Done_not_called(operation_after_Add)")
 	case inside:
-		ctx.Sink.Count("nested/order=completed_inside_callback")
+		t.Count("nested/order=completed_inside_callback")
 	default:
-		ctx.Sink.Count("nested/order=completed_after_Add_returned")
+		t.Count("nested/order=completed_after_Add_returned")
 	}
-	ctx.Sink.Add(c)
+	t.Add(c)
 }
 
 // liveAt: initial contexts still live when the nested Add is issued (statistics only).
@@ -966,6 +1022,9 @@ func runRace(ctx *core.Ctx, in c20Input) {
 		}
 		ctx.Sink.Count("race/runs")
 		if patience.caseFailed {
+			// recorded at once: a race is where an intermittent hang would show, a second run
+			// proves nothing
+			patience.confirm()
 			ctx.Sink.Count("race/liveness_failure_recorded")
 			break // the remaining repetitions would each wait for the same thing
 		}
@@ -1010,11 +1069,11 @@ func runRace(ctx *core.Ctx, in c20Input) {
 func c20Run(ctx *core.Ctx, in c20Input) {
 	switch in.Kind {
 	case "script":
-		runScript(ctx, in)
+		runConfirmed(ctx, in, runScript)
 	case "race":
 		runRace(ctx, in)
 	case "nested":
-		runNested(ctx, in)
+		runConfirmed(ctx, in, runNested)
 	default:
 		panic("c20: bad kind " + in.Kind)
 	}
